@@ -120,7 +120,7 @@ def check_arith(case):
         exprs.append(f"std.{name}(" + ", ".join(jn(x) for x in args) + ")")
         metas.append(("fn", name))
         if arity >= 1:
-            rest = "".join(", " + jn(x) for x in [b, c][:arity - 1])
+            rest = "".join(", " + jn(x if name not in ALLOC_SIZED else cap(x)) for x in [b, c][:arity - 1])
             exprs.append(f"std.{name}({arr_src}{rest})" if name not in ALLOC_SIZED else f"std.{name}({jn(args[0])}{rest})")
             metas.append(("fn", name + "[]"))
     res = util.eval_exprs(exprs, want=["typed"])
